@@ -105,6 +105,29 @@ def run(ctx):
              "a precompile produces InstructionResult::%s (in %s): a failing precompile call that hands the unspent gas back is cheaper than a "
              "succeeding one, so whether the caller succeeds is no longer monotone in the gas limit and eth_estimateGas can return an "
              "insufficient figure" % (v, f.name.split("::")[-1]), sample={"rule": "GAS result kinds", "kind": v, "sites": len(where)})
+    # "submitting the same call as a transaction ... succeeds": the probes and the confirmation run execute under the rules of
+    # the block the transaction will be in - the next one - not of the latest finalised block (the height selects the EVM spec,
+    # hence the intrinsic-gas rules).  The same row as C17's, recorded here because a sufficient estimate depends on it
+    from terms import mentions_deep
+    em_ = ER.engine_methods(F)
+    ge_ = F.fn_opt("engine::evm::get_evm")
+    n_h = 0
+    if ge_ is not None:
+        pn_ = ge_.j.get("param_names") or []
+        for name in ("read_contract", "read_contract_multi"):
+            top = em_.get(name)
+            if top is None or "block_number" not in pn_:
+                continue
+            for g in [top] + F.descendants(top.id):
+                for c in g.calls():
+                    if c.target_id != ge_.id or g.is_cleanup(c.bb):
+                        continue
+                    n_h += 1
+                    bn = W.resolve(F, g, origin(g, c.args[pn_.index("block_number")]))
+                    R.ob(mentions_deep(F, bn, "get_next_block_height") and not mentions_deep(F, bn, "get_latest_block_height"), "SIBLING", c.where(),
+                         "SIBLING|%s|estimate-height" % name, "%s simulates at `%s`: the estimate is computed under the rules of another block than the one the "
+                         "transaction will run in" % (name, show(bn)[:80]), sample={"rule": "SIBLING", "site": name, "block_number": show(bn)[:70]})
+    R.floor("simulation_height_sites", n_h, 2)
     # bisection shape
     for hname in ("eth_estimateGas", "eth_estimateGasMany"):
         hs = [h for (n, ms, hh, c) in roles.rpc_methods(F) if n == hname for h in hh]
